@@ -50,17 +50,25 @@ LineOf(f, x) ==
       [] f = "gem_noauth" -> "gemini://" \o x \o CRLF
       [] f = "gem_query" -> "gemini://localhost/GEMINI-QUERY" \o x \o CRLF
       [] f = "gem_query_q" -> "gemini://localhost/GEMINI-QUERY" \o x \o "?q" \o CRLF
+      \* a non-ASCII character class in every numeric / syntactic position of a frame (SUP2, ARD3, NAL: Server.tla)
+      [] f = "s_len_nd"    -> "localhost " \o x \o " " \o SUP2 \o CRLF          \* Spartan length: digit that is not decimal
+      [] f = "s_len_ud"    -> "localhost " \o x \o " " \o ARD3 \o CRLF          \* Spartan length: non-ASCII decimal digit
+      [] f = "s_host_na"   -> "loc" \o NAL \o "lhost " \o x \o " 0" \o CRLF       \* Spartan host not ASCII
+      [] f = "gem_port_nd" -> "gemini://localhost:" \o SUP2 \o x \o CRLF          \* Gemini port
+      [] f = "h_ver_nd"    -> "GET " \o x \o " HTTP/1." \o SUP2 \o CRLF            \* HTTP version
+      [] f = "gp_view_na"  -> x \o "\t+" \o SUP2 \o CRLF                          \* Gopher+ view field
+      [] f = "g_q_na"      -> x \o "\t" \o NAL \o ARD3 \o CRLF                   \* search field
       [] f \in {"s", "s_tls"} -> "localhost " \o x \o " 0" \o CRLF
       [] f \in {"s_body", "s_short"} -> "localhost " \o x \o " 5" \o CRLF
       [] f = "s_2sp"     -> "localhost  " \o x \o " 0" \o CRLF
       [] f \in {"tg"}    -> x \o CRLF
       [] f = "tg_tab"    -> x \o "\t" \o CRLF
       [] f = "tgp_plus"  -> x \o "\t+" \o CRLF
-TlsOf(f) == f \in {"gem", "gem_q", "gem_ip6", "gem_bad1", "gem_bad2", "gem_bad3", "gem_noauth", "gem_query",
+TlsOf(f) == f \in {"gem_port_nd", "gem", "gem_q", "gem_ip6", "gem_bad1", "gem_bad2", "gem_bad3", "gem_noauth", "gem_query",
                    "gem_query_q", "tg", "tg_tab", "tgp_plus", "th_get", "s_tls"}
 WapOf(f) == f = "w_hdr"
 TailOf(f) ==
-    CASE f \in {"h_get", "h_head", "h_11", "h_q", "w_get", "w_head", "th_get"} -> "blank"
+    CASE f \in {"h_get", "h_head", "h_11", "h_q", "w_get", "w_head", "th_get", "h_ver_nd"} -> "blank"
       [] f = "h_hdrs" -> "hdrs"
       [] f = "h_hdrs_noblank" -> "hdrs_noblank"
       [] f = "w_hdr" -> "wap"
